@@ -25,6 +25,7 @@ type Alpha struct {
 	MaxPrunes    int   // max number of successful-or-not DeleteVersionsTo calls (0 = unlimited)
 	Reads        bool  // read-only deviations (bounded by Spec.MaxReads)
 	Import       bool  // export/import of a retained version (plain and compressed)
+	SaveCS       bool  // SaveChangeSet with one of a few fixed change sets (only when nothing is pending)
 	ReadAll      bool  // one macro read-only operation that reads everything (warms node and fast caches)
 	Exports      bool  // open (and fully read) / close an export of a retained version: pins the version
 }
@@ -65,6 +66,11 @@ func (a Alpha) Ops(w *World, s *Spec) []Op {
 	}
 	if a.Rollback {
 		ops = append(ops, Op{Kind: OpRollback})
+	}
+	if a.SaveCS && len(m.wlog) == 0 && (a.MaxVersions == 0 || m.WorkingVersion() <= a.MaxVersions) && !m.Has(m.WorkingVersion()) {
+		for i, cs := range changeSetTable(s.Keys) {
+			ops = append(ops, Op{Kind: OpSaveCS, Arg: i, CS: cs})
+		}
 	}
 	if a.ReadAll && w.Cfg.Cache > 0 {
 		ops = append(ops, Op{Kind: OpRead, Arg: 12})
